@@ -52,6 +52,40 @@ theorem mapM_all_ok {α β} (g : α → Except ErrKind β) (v : α → β) (l : 
     rw [List.mapM_cons, h a (by simp), ih (fun b hb => h b (by simp [hb]))]
     rfl
 
+/-- placing frame `i` into slice `vp[i]` of an array of `n` slices: slice `vp[i]` holds frame `i`, the other slices are blank -/
+theorem placement_spec {β} (vp : List Int) (n : Int) (fr : List β) (hvl : vp.length = fr.length) (hvn : vp.Nodup)
+    (hvr : ∀ v ∈ vp, 0 ≤ v ∧ v < n) :
+    ((List.range n.toNat).map (fun (s : Nat) => (vp.idxOf? (s : Int)).bind (fun f => fr[f]?))).length = n.toNat ∧
+    (∀ i (hi : i < fr.length), ∃ v, vp[i]? = some v ∧
+      ((List.range n.toNat).map (fun (s : Nat) => (vp.idxOf? (s : Int)).bind (fun f => fr[f]?)))[v.toNat]? = some (some fr[i])) ∧
+    (∀ s, s < n.toNat → (s : Int) ∉ vp →
+      ((List.range n.toNat).map (fun (s : Nat) => (vp.idxOf? (s : Int)).bind (fun f => fr[f]?)))[s]? = some none) := by
+  refine ⟨by simp, ?_, ?_⟩
+  · intro i hi
+    have hil : i < vp.length := by rw [hvl]; exact hi
+    refine ⟨vp[i], List.getElem?_eq_getElem hil, ?_⟩
+    obtain ⟨h0, hlt⟩ := hvr vp[i] (List.getElem_mem hil)
+    have hs : vp[i].toNat < n.toNat := by omega
+    rw [List.getElem?_map, List.getElem?_range hs]
+    simp only [Option.map_some, Option.some.injEq]
+    have hcast : ((vp[i].toNat : Nat) : Int) = vp[i] := Int.toNat_of_nonneg h0
+    rw [hcast]
+    have hidx : vp.idxOf? vp[i] = some i := by
+      rw [List.idxOf?_eq_some_iff]
+      refine ⟨hil, rfl, ?_⟩
+      intro j hj heq
+      have hjl : j < vp.length := by omega
+      have := (List.Nodup.getElem_inj_iff hvn (hi := hjl) (hj := hil)).mp heq
+      omega
+    rw [hidx]
+    simp [hi]
+  · intro s hs hnot
+    rw [List.getElem?_map, List.getElem?_range hs]
+    simp only [Option.map_some, Option.some.injEq]
+    have : vp.idxOf? (s : Int) = none := by
+      rw [List.idxOf?_eq_none_iff]; exact hnot
+    rw [this]; rfl
+
 /-- **The voxels of the volume are the stored pixels**: for a single-channel map whose planes have distinct positions, whatever
 the stack assembly (`Stack.assembleFrames`, C11) decides -- spacing `sp`, origin, `n` slices, frame `i` to slice `vp[i]` --
 `get_volume` returns an array of `n` slices in which slice `vp[i]` holds exactly the cells of plane `i` (pixel `(r, c)` of the
@@ -102,6 +136,46 @@ theorem getVolume_build (x : PMInput) (o : PMObject) (h : build x = .ok o) (hel 
     have : vp.idxOf? (s : Int) = none := by
       rw [List.idxOf?_eq_none_iff]; exact hnot
     rw [this]; rfl
+
+/-- **... and with the real-world transform every voxel is the stored pixel under the mapping selected from the mappings of its own
+frame** (single channel: the shared mappings `x.maps 0`): slice `vp[i]` holds `applyMapping mp` of the values of plane `i`; if the
+selection fails or one plane has a value outside the mapping's range the whole call is refused. -/
+theorem getVolumeReal_build (x : PMInput) (o : PMObject) (h : build x = .ok o) (hel : o.element = "PixelData") (hw : CellsWF x)
+    (hpos : 0 < x.r * x.c * x.itemsize) (cached : Bool) (ori : List Rat) (hint rtol atol : Option Rat) (am : Bool) (sel : Selector)
+    (hm : x.m = 1) (hnd : (positionRows x).Nodup) (sp : Rat) (origin : List Rat) (n : Int) (vp : List Int)
+    (ha : Stack.assembleFrames (positionRows x) ori hint rtol atol am = .ok (sp, origin, n, vp))
+    (hvl : vp.length = x.n) (hvn : vp.Nodup) (hvr : ∀ v ∈ vp, 0 ≤ v ∧ v < n)
+    (vals : Nat → List Rat)
+    (hmap : ∀ i, i < x.n → (select (x.maps 0) sel).bind (fun mp => applyMapping mp ((plane x i 0).map cellValue)) = .ok (vals i)) :
+    ∃ slices, getVolumeReal x o cached ori hint rtol atol am sel = .ok (sp, origin, slices) ∧ slices.length = n.toNat ∧
+      (∀ i (hi : i < x.n), ∃ v, vp[i]? = some v ∧ slices[v.toNat]? = some (some (vals i))) ∧
+      (∀ s, s < n.toNat → (s : Int) ∉ vp → slices[s]? = some none) := by
+  have hframes : (List.range x.n).mapM (fun (f : Nat) => (do
+        let cells ← volumeFrame o cached (f : Int)
+        let ms ← attachedMappings o f
+        let mp ← select ms sel
+        applyMapping mp (cells.map cellValue) : Except ErrKind (List Rat))) = .ok ((List.range x.n).map vals) := by
+    apply mapM_all_ok
+    intro f hf
+    have hfn : f < x.n := List.mem_range.mp hf
+    have hf' : f < x.n * x.m := by rw [hm, Nat.mul_one]; exact hfn
+    have h1 := volumeFrame_build x o h hel hw hpos cached f hf'
+    rw [hm, Nat.div_one, Nat.mod_one] at h1
+    have h2 := attachedMappings_build x o h f hf'
+    rw [hm, Nat.mod_one] at h2
+    simp only [h1, h2, bind, Except.bind]
+    have := hmap f hfn
+    simp only [bind, Except.bind] at this
+    exact this
+  obtain ⟨p1, p2, p3⟩ := placement_spec vp n ((List.range x.n).map vals) (by simp [hvl]) hvn hvr
+  refine ⟨_, ?_, p1, ?_, p3⟩
+  · unfold getVolumeReal
+    rw [if_neg (by simp [hm, hnd]), ha]
+    simp only [hframes]
+  · intro i hi
+    obtain ⟨v, hv1, hv2⟩ := p2 i (by simp [hi])
+    refine ⟨v, hv1, ?_⟩
+    rw [hv2]; simp [hi]
 
 /-- a map with several channels (several frames share every position) or with planes at equal positions: `get_volume` refuses -/
 theorem getVolume_refuses_shared_positions (x : PMInput) (o : PMObject) (cached : Bool) (ori : List Rat) (hint rtol atol : Option Rat)
